@@ -1,12 +1,208 @@
 package main
 
-// runControls is filled in by controls_impl.go once fixtures exist.
-var controlFuncs []func() string
+import (
+	"fmt"
+	"go/ast"
+	"go/types"
+	"os"
+	"path/filepath"
+	"strings"
+
+	"golang.org/x/tools/go/callgraph/cha"
+	"golang.org/x/tools/go/callgraph/vta"
+	"golang.org/x/tools/go/packages"
+	"golang.org/x/tools/go/ssa"
+	"golang.org/x/tools/go/ssa/ssautil"
+)
+
+// Positive controls: every run first analyses a small fixture package that
+// contains one deliberate violation per analysis primitive (and a correct
+// sibling for each). A primitive that does not flag its control, or flags
+// the correct sibling, makes the whole run BROKEN: "rule found nothing" must
+// never be confused with "rule is blind".
+
+const controlsPath = "controls"
+
+func loadFixture(dir string) *Program {
+	p := &Program{All: map[string]*packages.Package{}, Timings: map[string]float64{}, WithCG: true}
+	env := append(os.Environ(), "GOFLAGS=-mod=mod", "GOPROXY=off", "GOSUMDB=off", "GOTOOLCHAIN=local", "GOWORK=off")
+	cfg := &packages.Config{Mode: packages.LoadAllSyntax | packages.NeedModule, Dir: dir, Env: env}
+	cfg.Fset = nil
+	initial, err := packages.Load(cfg, ".")
+	if err != nil || len(initial) != 1 || len(initial[0].Errors) > 0 {
+		brokenf("positive controls: cannot load fixture %s: %v %v", dir, err, initial)
+	}
+	p.Fset = initial[0].Fset
+	prog := ssa.NewProgram(p.Fset, ssa.InstantiateGenerics)
+	packages.Visit(initial, nil, func(pkg *packages.Package) {
+		p.All[pkg.ID] = pkg
+		if pkg.Types != nil && len(pkg.Syntax) > 0 && pkg.TypesInfo != nil && len(pkg.Errors) == 0 {
+			prog.CreatePackage(pkg.Types, pkg.Syntax, pkg.TypesInfo, true)
+		} else if pkg.Types != nil {
+			prog.CreatePackage(pkg.Types, nil, nil, true)
+		}
+	})
+	prog.Build()
+	p.SSA = prog
+	p.Repo = initial
+	p.CG = vta.CallGraph(ssautil.AllFunctions(prog), cha.CallGraph(prog))
+	return p
+}
 
 func runControls() []string {
-	var out []string
-	for _, f := range controlFuncs {
-		out = append(out, f())
+	dir := filepath.Join(verifDir, "clusterlint", "testdata", "controls")
+	if _, err := os.Stat(dir); err != nil {
+		brokenf("positive controls: fixture directory %s missing", dir)
 	}
+	savedRoot := repoRoot
+	repoRoot = dir
+	defer func() { repoRoot = savedRoot }()
+	p := loadFixture(dir)
+	c := newCtx(p)
+	sp := p.SSA.Package(p.Repo[0].Types)
+	fn := func(name string) *ssa.Function {
+		if i := strings.Index(name, "."); i >= 0 {
+			t := sp.Type(name[:i])
+			sel := p.SSA.MethodSets.MethodSet(types.NewPointer(t.Type())).Lookup(sp.Pkg, name[i+1:])
+			return p.SSA.MethodValue(sel)
+		}
+		return sp.Func(name)
+	}
+	var out []string
+	expect := func(name string, got, want bool) {
+		if got != want {
+			brokenf("positive control %q failed (got %v, want %v): the analysis primitive is blind or over-eager; no verdict can be trusted", name, got, want)
+		}
+		out = append(out, fmt.Sprintf("%s: ok", name))
+	}
+	// --- lockset
+	var funcs []*ssa.Function
+	for _, m := range sp.Members {
+		if f, ok := m.(*ssa.Function); ok && f.Blocks != nil {
+			funcs = append(funcs, f)
+			funcs = append(funcs, f.AnonFuncs...)
+		}
+		if t, ok := m.(*ssa.Type); ok {
+			if nt, ok := t.Type().(*types.Named); ok {
+				for i := 0; i < nt.NumMethods(); i++ {
+					if f := p.SSA.FuncValue(nt.Method(i)); f != nil && f.Blocks != nil {
+						funcs = append(funcs, f)
+						funcs = append(funcs, f.AnonFuncs...)
+					}
+				}
+			}
+		}
+	}
+	w := &lockWorld{c: c, infos: map[*ssa.Function]*LockInfo{}, funcs: funcs}
+	for _, f := range funcs {
+		w.infos[f] = c.lockInfo(f, lockSet{})
+	}
+	unl, lck := false, true
+	for _, a := range w.accesses(func(o *types.Named, f *types.Var) bool { return o.Obj().Name() == "Box" && f.Name() == "n" }) {
+		held := false
+		for id := range a.held {
+			if lockName(id) == "mu" || lockName(id) == "rw" {
+				held = true
+			}
+		}
+		if a.fn.Name() == "Unlocked" && !held {
+			unl = true
+		}
+		if a.fn.Name() == "Locked" && !held {
+			lck = false
+		}
+	}
+	expect("lockset flags an unguarded access", unl, true)
+	expect("lockset accepts a guarded access", lck, true)
+	// --- pairing
+	leaks := func(f *ssa.Function) bool {
+		own := c.lockInfo(f, lockSet{})
+		for _, b := range f.Blocks {
+			if _, ok := own.in[b]; !ok {
+				continue
+			}
+			if _, isRet := b.Instrs[len(b.Instrs)-1].(*ssa.Return); isRet {
+				for id := range own.transferBlock(b, nil) {
+					if !own.deferred[id] {
+						return true
+					}
+				}
+			}
+		}
+		return false
+	}
+	expect("pairing flags a lock leaked on an early return", leaks(fn("Box.Leaks")), true)
+	expect("pairing accepts defer-unlock", leaks(fn("Box.Locked")), false)
+	// --- relock through a callee
+	rwField := fieldByName(sp.Type("Box").Type(), "rw")
+	rel := c.pathTo2(fn("Box.inner"), func(g *ssa.Function, site ssa.CallInstruction) bool {
+		if site == nil {
+			return false
+		}
+		k, id := lockOp(site.Common())
+		return (k == "lock" || k == "rlock") && id == lockID(rwField)
+	}, rwField)
+	expect("re-acquisition through a callee is found", rel != nil, true)
+	// --- self wait
+	var body *ssa.Function
+	for _, a := range fn("Box.Spawn").AnonFuncs {
+		body = a
+	}
+	wgF := fieldByName(sp.Type("Box").Type(), "wg")
+	isWait := func(g *ssa.Function, site ssa.CallInstruction) bool {
+		return site != nil && callName(site.Common()) == "(*sync.WaitGroup).Wait" && wgFieldDeep(site.Common().Args[0]) == wgF
+	}
+	expect("a counted goroutine reaching Wait is found", body != nil && c.pathTo(body, isWait, reachOpt{noGo: true}) != nil, true)
+	expect("synchronous reachability ignores go edges", c.pathTo(fn("Box.Spawn"), isWait, reachOpt{noGo: true}) == nil, true)
+	expect("reachability follows go edges when asked", c.pathTo(fn("Box.Spawn"), isWait, reachOpt{}) != nil, true)
+	// --- guard dominance
+	guarded := func(f *ssa.Function) bool {
+		for _, ci := range findCalls(f, false, "controls.sink") {
+			if !guardedBy(ci.Block(), func(g Guard) bool { return gCallErrNil(g, "controls.validate") }) {
+				return false
+			}
+		}
+		return true
+	}
+	expect("guard dominance flags an unguarded sink", guarded(fn("Unguarded")), false)
+	expect("guard dominance accepts a guarded sink", guarded(fn("Guarded")), true)
+	// --- return provenance
+	swallow := false
+	for _, lf := range returnLeaves(fn("Swallows"), 0) {
+		if isNilConst(lf.Val) && lf.GuardedBy(func(g Guard) bool {
+			return gNil(g, true, func(v ssa.Value) bool { cc, _ := originCall(v); return cc != nil && nameMatches(callName(cc.Common()), "controls.commit") })
+		}) {
+			swallow = true
+		}
+	}
+	expect("return provenance flags nil returned on the failure branch", swallow, true)
+	// --- response typestate
+	h := &httpAnalysis{c: c, pkg: p.Repo[0], decls: map[*types.Func]*ast.FuncDecl{}, summary: map[*types.Func]StateSet{}, viol: map[*types.Func][]httpViolation{}, ops: map[*types.Func]int{}, resp: map[*types.Func]int{}}
+	h.extraOperate = func(name string) bool { return name == "controls.operate" }
+	for _, file := range p.Repo[0].Syntax {
+		for _, d := range file.Decls {
+			if fd, ok := d.(*ast.FuncDecl); ok && fd.Body != nil {
+				if o, ok := p.Repo[0].TypesInfo.Defs[fd.Name].(*types.Func); ok {
+					h.decls[o] = fd
+				}
+			}
+		}
+	}
+	kinds := func(name string) map[string]bool {
+		res := map[string]bool{}
+		for o, fd := range h.decls {
+			if o.Name() == name {
+				_, viol, _, _ := h.analyse(o, fd.Body, nil, false)
+				for _, v := range viol {
+					res[v.kind] = true
+				}
+			}
+		}
+		return res
+	}
+	bad := kinds("BadHandler")
+	expect("typestate flags an operation after an error response", bad["operate-after-error"], true)
+	expect("typestate flags a second response", bad["second-response"], true)
+	expect("typestate accepts the correct handler", len(kinds("GoodHandler")) == 0, true)
 	return out
 }
